@@ -32,6 +32,8 @@ CLAIMED = {
  "C17": dict(cat="exploration", ref="DESIGN.md 5 (C17), 3.6", text="Size-string grammar/value/round-trip judged by TLC against the ByteSize reference over an enumerated string language and boundary byte counts; config save/load and override sequences judged against ConfigCells when present.", note="bounded languages; values above 2^31 compared via quotient/remainder", tech="TLA+ reference grammar + TLC-enumerated inputs + differential run judged by TLC"),
  "C18": dict(cat="fault_enumeration", ref="DESIGN.md 5 (C18), 3.6", text="TLC enumerates update documents (valid / unworkable / ill-typed values, several keys), overrides and a failing file write as steps of the ConfigCells spec and checks OnlyWorkable / FileIsBase / ComponentsFollow; each sequence is replayed on the real config package with a live cache, janitor and listeners, and after every step the effective settings, the components and the file are judged by TLC trace validation; a dead process is a violation.", note="five settings; write failure injected at one byte count per failing update", tech="TLA+ spec: fault placements generated by TLC, replayed on the real config package, judged by TLC trace validation"),
  "C19": dict(cat="model_checking", ref="DESIGN.md 5 (C19), 3.6", text="TLC exhaustively checks the EventBus spec (3 listeners, all subscribe/unsubscribe/fire orders and completion orders) with the pinned tree's two deviations as negative controls; schedules are replayed on the real Event and ConfigProp with gated listeners and on live components through the API update path; observations judged by TLC (EventBusTrace, ConfigCellsTrace).", note="3 listeners, <=4 changes; policy/retry switches are read live per request (covered by the proxy replays)", tech="TLA+ spec + TLC exhaustive check + gated replay judged by TLC trace validation"),
+ "C20": dict(cat="model_checking", ref="DESIGN.md 5 (C20), 3.7", text="TLC explores login/logout/expiry/request histories of the Sessions spec and checks NoSessionNoEffect / ExpiredStaysExpired; histories are replayed on the real mux + Harden middleware with the real session table and user database, over every registered route; status class, effects and session liveness after every step are judged by TLC trace validation.", note="the SSE stream route is not driven; CSP constant supplied by a build overlay; session expiry by moving ExpiresAt", tech="TLA+ spec + TLC exhaustive check + replay on the real API judged by TLC trace validation"),
+ "C11": dict(cat="exploration", ref="DESIGN.md 5 (C11), 3.8", text="TLC checks the check-then-create issuance protocol under concurrency and expiry; generated batch schedules run on the real PrivateCA and every returned certificate is verified with crypto/x509; reuse / replacement judged by TLC trace validation.", note="cryptographic validity is decided by crypto/x509 (trusted)", tech="TLA+ protocol spec + TLC check + real CA runs with x509 oracle, judged by TLC"),
 }
 ENABLED = os.environ.get("VERIF_CLAIMS", "").split(",") if os.environ.get("VERIF_CLAIMS") else None
 
